@@ -46,6 +46,11 @@ theorem C04_success_means_executed_once {cfg : L.Cfg} {tr : List L.Ev} {s : L.St
   obtain ⟨q, hq, he⟩ := L.success_means_executed h k c hc src hr
   exact ⟨q, hq, he, (C04_at_most_once_end_to_end h q).1⟩
 
+/-- "Invoked with the arguments its request carried" for as long as the handler runs: the read buffer
+    the request was decoded from (with NoCopy the arguments point into it) is not returned to the
+    buffer pool before the handler has returned (read from server.go on every run). -/
+theorem C04_arguments_stay_valid_while_the_handler_runs : Gen.serverKeepsReadBufferDuringHandler = true := by decide
+
 /-- The source facts the model's crash conditions and teardown order rest on. -/
 theorem C04_source_facts : allFlags = true := allFlags_true
 
